@@ -66,13 +66,7 @@ func newSoloSys(cfg clConfig) *soloSys {
 		panic(err)
 	}
 	s := &soloSys{root: root, cfg: cfg, script: cfg.script, txs: map[string]pb.Transaction{}, execHeight: 1, executed: map[uint64][]string{}, nonces: map[string]uint64{}}
-	ka, kb := fix.Key("cl-a"), fix.Key("cl-b")
-	to := fix.Addr(fix.KUser2)
-	s.txs["a0"] = fix.Transfer(ka, 0, to, "1")
-	s.txs["a1"] = fix.Transfer(ka, 1, to, "1")
-	s.txs["a2"] = fix.Transfer(ka, 2, to, "1")
-	s.txs["b0"] = fix.Transfer(kb, 0, to, "1")
-	s.txs["b1"] = fix.Transfer(kb, 1, to, "1")
+	s.txs = clTxs(fix.Key("cl-a"), fix.Key("cl-b"), fix.Addr(fix.KUser2))
 	s.boot()
 	return s
 }
